@@ -57,6 +57,16 @@ def gen(rng, tier):
                 r["max"] = rng.randint(0, len(c["variants"]) + 1)
             restrs.append(r)
         c["restrictions"] = restrs
+        c["kinds"] = ["vcf", "pgen"]
+        if len(c["variants"]) > 2 and t % 5 == 4:
+            # a PGEN whose .pvar is not position-sorted and whose contigs interleave (legal for PLINK2; a VCF could not be
+            # indexed like that, so these cases read the PGEN only): restricted read = full read + subset all the same
+            perm = list(range(len(c["variants"])))
+            while perm == sorted(perm):
+                rng.shuffle(perm)
+            c["variants"] = [c["variants"][j] for j in perm]
+            c["data"] = [[row[j] for j in perm] for row in c["data"]]
+            c["kinds"] = ["pgen"]
         yield c
 
 
@@ -92,15 +102,18 @@ def impl(case):
     d.mkdir(parents=True)
     variants = [(v["id"], v["chrom"], v["pos"], v["alleles"]) for v in case["variants"]]
     data = [[tuple(c) for c in row] for row in case["data"]]
-    GF.write_vcf_text(d / "g.vcf", case["samples"], variants, data, contigs=sorted({v["chrom"] for v in case["variants"]}))
-    GF.compress_index(d / "g.vcf", d / "g.vcf.gz")
+    kinds = case.get("kinds", ["vcf", "pgen"])
+    if "vcf" in kinds:
+        GF.write_vcf_text(d / "g.vcf", case["samples"], variants, data, contigs=sorted({v["chrom"] for v in case["variants"]}))
+        GF.compress_index(d / "g.vcf", d / "g.vcf.gz")
     GF.write_pgen(d / "g", case["samples"], variants, data)
+    files = [(k, p) for k, p in (("vcf", d / "g.vcf.gz"), ("pgen", d / "g.pgen")) if k in kinds]
     out = {"full": {}, "restricted": []}
-    for kind, path in (("vcf", d / "g.vcf.gz"), ("pgen", d / "g.pgen")):
+    for kind, path in files:
         out["full"][kind] = read_one(kind, path, {"region": None, "samples": None, "ids": None, "max": None, "chunk": None}, False)
     for r in case["restrictions"]:
         e = {}
-        for kind, path in (("vcf", d / "g.vcf.gz"), ("pgen", d / "g.pgen")):
+        for kind, path in files:
             e[kind] = C.guarded(read_one, kind, path, r, False)
             if r["max"] is None:
                 e[kind + "_iter"] = C.guarded(read_one, kind, path, r, True)
@@ -162,6 +175,8 @@ def equal(a, b):
         return False
     for e, want in zip(a["restricted"], b["expected"]):
         for kind in ("vcf", "pgen"):
+            if kind not in e:
+                continue
             if C.canon(norm_read(e[kind])) != C.canon(want):
                 return False
     return True
@@ -171,12 +186,12 @@ def oracle(case, obs):
     if "error" in obs:
         return f"reads raised {obs}"
     full = {k: norm_read(v) for k, v in obs["full"].items()}
-    if C.canon(full["vcf"]) != C.canon(full["pgen"]):
+    kinds = [k for k in ("vcf", "pgen") if k in full]
+    if len(kinds) == 2 and C.canon(full["vcf"]) != C.canon(full["pgen"]):
         return f"VCF and PGEN files with the same content load differently: {full['vcf']} vs {full['pgen']}"
-    base = obs["full"]["vcf"]
     for r, e in zip(case["restrictions"], obs["restricted"]):
         # full read + subset, computed from the full read of the same format
-        for kind in ("vcf", "pgen"):
+        for kind in kinds:
             got = e[kind]
             if isinstance(got, dict) and "error" in got:
                 return f"{kind} read with {r} raised {got} (a restriction matching nothing must give an empty result with a warning)"
@@ -219,7 +234,7 @@ def oracle(case, obs):
                         wc = [want["data"][i][j] for i in range(len(want["samples"]))]
                         if gc != wc:
                             return f"{kind} streaming iterator with {r}: record {itv[j]} (kept and read after the iteration) holds {gc}, bulk read gives {wc}"
-        if C.canon(norm_read(e["vcf"])) != C.canon(norm_read(e["pgen"])):
+        if len(kinds) == 2 and C.canon(norm_read(e["vcf"])) != C.canon(norm_read(e["pgen"])):
             return f"restriction {r}: VCF gives {norm_read(e['vcf'])}, PGEN gives {norm_read(e['pgen'])}"
     return None
 
@@ -417,7 +432,7 @@ CHECK = Check(
             setup=setup,
             teardown=teardown,
             nontrivial=lambda c, o: C.jdump([c["variants"], c["data"]]) if len(c["variants"]) > 1 else None,
-            rule="seeded random contents written independently (harness writers) as indexed vcf.gz and as PGEN; 10 restrictions per content: regions 'c', 'c:a-b', 'c:a-' with a, b on / next to variant positions, absent contigs and contig names longer than 10 characters, sample subsets incl. unknown and all-unknown, variant-ID subsets incl. unknown and empty match, max_variants 0..p+1, PGEN chunk sizes; bulk read and streaming iterator (records collected first and compared afterwards, genotypes included), both formats; compared with the Lean restriction model and with full-read-then-subset; every 6th content has multi-base REF alleles (KF1 territory)",
+            rule="seeded random contents written independently (harness writers) as indexed vcf.gz and as PGEN; 10 restrictions per content: regions 'c', 'c:a-b', 'c:a-' with a, b on / next to variant positions, absent contigs and contig names longer than 10 characters, sample subsets incl. unknown and all-unknown, variant-ID subsets incl. unknown and empty match, max_variants 0..p+1, PGEN chunk sizes; bulk read and streaming iterator (records collected first and compared afterwards, genotypes included), both formats; compared with the Lean restriction model and with full-read-then-subset; every 6th content has multi-base REF alleles (KF1 territory); every 5th content is written as a PGEN whose .pvar is unsorted with interleaved contigs and read as PGEN only",
         ),
         Section(
             name="subset_loaded",
